@@ -203,6 +203,11 @@ class Verdict:
         self.ev.violations = len(self.new)
         if not self.new:
             return 0
+        hist = {}
+        for key, what, replay in self.new:
+            hist[key] = hist.get(key, 0) + 1
+        log('violations by key: ' + ', '.join('%s x%d' % kv for kv in sorted(hist.items())))
+        self.ev.cov['violation_keys'] = hist
         rdir = os.path.join(EVID, 'replays')
         os.makedirs(rdir, exist_ok=True)
         for i, (key, what, replay) in enumerate(self.new[:5]):
